@@ -89,7 +89,8 @@ def run(chk):
         rand_jobs = [(251, 150), (45971, 40)]
         tok_n, key_n, int_args = 12, 40, [("int-47x59", ["-q", "0", "-n", "60"])]
     else:
-        mcs = [("q11", False), ("q11s", False), ("q3p", True), ("q3p3", True), ("q5p", True), ("q7p", False), ("q5p3", False), ("q5all", False)]
+        # CommitMC_q5p3.cfg / CommitMC_q5all.cfg (0.7M / 45k states, no export) are kept for manual runs: too slow for a shared machine
+        mcs = [("q11", False), ("q11s", False), ("q3p", True), ("q3p3", True), ("q5p", True), ("q7p", False)]
         toy_jobs = [("toy-q11", ["-q", "11", "-what", "ped,keys,elg"]),
                     ("toy-q7", ["-q", "7", "-what", "ped,keys,elg"]),
                     ("toy-q5", ["-q", "5", "-what", "ped,keys,elg"]),
